@@ -23,6 +23,8 @@ def run(chk):
     r05g(chk, tt)
     r05h(chk)
     r05i(chk, thorough=chk.tier == 'thorough')
+    r05j(chk)
+    r05k(chk)
 
 
 def r05a(chk, rid='R05.a'):
@@ -533,3 +535,80 @@ def r05i(chk, rid='R05.i', thorough=False):
             chk.ob(rid, TOK, 'Tokenizer.tokenize', f'{label} ({len(texts)} texts)', True)
         for (k, first), v in sorted(mine.items()):
             chk.ob(rid, TOK, 'Tokenizer.tokenize', f'{label}: {first} tokens', False, f'{len(v)} texts, e.g. {v[0][0]!r}: {v[0][1]}')
+
+
+def r05j(chk, rid='R05.j'):
+    chk.rule(rid, 'error reports carry the position of the token they complain about, decided by evaluation: the handler of _ErrorHandler (the function every log call ends in) is evaluated on its syntax tree with model exception classes, in raising and in logging mode, for a token given as a tuple, as an object, and for no token, also in that order in one history: the message ends in [line:col: value] of exactly that token, the raised exception carries its line and column, and a report without a token carries none - not those of an earlier report')
+    from sa.absint import Evaluator, Obj, Raised, Record
+
+    m = chk.repo.mod('cssutils/errorhandler.py')
+    fn = m.get('_ErrorHandler.__handle')
+
+    class DOMException(Exception):
+        line = col = None
+
+    class SyntaxErr(DOMException):
+        pass
+
+    class HTTPError(Exception):
+        pass
+
+    class URLError(Exception):
+        pass
+
+    intr = {'xml': Record(dom=Record(SyntaxErr=SyntaxErr, DOMException=DOMException)), 'urllib': Record(error=Record(HTTPError=HTTPError, URLError=URLError))}
+    for raising in (True, False):
+        logged = []
+        me = Obj(enabled=True, raiseExceptions=raising, _logcall=lambda msg: logged.append(msg))
+        SyntaxErr.line = SyntaxErr.col = DOMException.line = DOMException.col = None
+        history = [('a token tuple', ('IDENT', 'x', 3, 12), (3, 12, 'x')), ('a token object', Record(value='y', line=7, col=2), (7, 2, 'y')), ('no token', None, None),
+                   ('a token tuple again', ('IDENT', 'z', 5, 1), (5, 1, 'z')), ('no token with error=None', None, None)]
+        for label, tok, want in history:
+            del logged[:]
+            msgs = []
+            kw_ = {'msg': 'm', 'token': tok}
+            if 'error=None' in label:
+                kw_['error'] = None
+            ev = Evaluator(fn, intrinsics=intr, module=m, cls='_ErrorHandler', model_types=(type,))
+            res = ev.run(self=me, **kw_)
+            mode = 'raising' if raising else 'logging'
+            if raising:
+                ok = isinstance(res, Raised) and (SyntaxErr.line, SyntaxErr.col) == ((want[0], want[1]) if want else (None, None))
+                chk.ob(rid, 'cssutils/errorhandler.py', '_ErrorHandler.__handle', f'{mode} mode, {label}: the exception carries ' + ('the position of the token' if want else 'no position'), ok,
+                       f'{res!r} with line/col {SyntaxErr.line}:{SyntaxErr.col}' + ('' if want else ': the position of an earlier, unrelated report'))
+            else:
+                suffix = f' [{want[0]}:{want[1]}: {want[2]}]' if want else ''
+                ok = res is None and logged == ['m' + suffix]
+                chk.ob(rid, 'cssutils/errorhandler.py', '_ErrorHandler.__handle', f'{mode} mode, {label}: the message ' + ('ends in [line:col: value] of the token' if want else 'is logged as it is'), ok, f'logged {logged}, {res!r}')
+
+
+def r05k(chk, rid='R05.k'):
+    chk.rule(rid, 'token values are their text with the hex escapes decoded, decided by evaluation of Tokenizer.tokenize (as in R05.i) on one token of every kind whose grammar admits escapes - identifier, function, hash, dimension, string, url() - with one- to six-digit escapes ended by nothing, a space, a tab, a line feed or CR LF, in first, middle and last position: the value is the text with each escape replaced by its character (and its terminator dropped), the kind is unchanged')
+    chk.assume('R05.k: at-keywords are left out - their undecoded value is the known finding of C03 (R03.c)')
+    from sa.absint import Raised
+
+    def ref(s):
+        import re as _re
+        return _re.sub(r'\\([0-9a-fA-F]{1,6})(\r\n|[ \t\r\n\f])?', lambda mo: chr(int(mo.group(1), 16)), s)
+
+    escapes = ['\\e9 ', '\\E9\t', '\\0000e9', '\\e9\n', '\\e9\r\n', '\\65 ', '\\000065', '\\6d']
+    frames = {'IDENT': ('a{}b', '{}b', 'a{}'), 'FUNCTION': ('a{}b(', 'a{}('), 'HASH': ('#a{}b', '#{}b'), 'DIMENSION': ('1{}x', '1a{}', '1p{}'), 'STRING': ('"a{}b"', '"{}"'), 'URI': ('url(a{}b)', 'url("a{}b")')}
+    n = 0
+    bad = {}
+    for kind, fr in frames.items():
+        for f in fr:
+            for e in escapes:
+                if f.endswith('{}') and not e[-1].isspace() and len(e) < 7:
+                    pass
+                text_ = f.replace('{}', e)
+                if kind in ('IDENT', 'DIMENSION', 'HASH') and f.endswith('{}') is False and not e[-1].isspace() and len(e) < 7 and f[f.index('}') + 1:f.index('}') + 2] in 'abcdefABCDEF0123456789':
+                    continue  # the next character would be read as part of the escape
+                toks = tokenize_text(chk.repo, text_, fullsheet=False)
+                n += 1
+                if isinstance(toks, Raised) or not toks or toks[0][0] != kind or len(toks) != 1 or toks[0][1] != ref(text_):
+                    bad.setdefault(kind, []).append((text_, toks if isinstance(toks, Raised) else [(t[0], t[1]) for t in toks][:2]))
+    for kind in frames:
+        b = bad.get(kind, [])
+        chk.ob(rid, TOK, 'Tokenizer.tokenize', f'{kind} tokens carry their text with the escapes decoded', not b,
+               '; '.join(f'{t!r} gives {g!r}' for t, g in b[:2]) + f' ({len(b)} samples): the same {kind} written with an escape is another value in the DOM')
+    chk.extra['escape_samples'] = n
